@@ -32,7 +32,9 @@
      oploc, kind, par, needconn   per id: logical location, "g" | "b", parameters (micro-units), needs-connectivity
      out            the output circuit in simulation order: [k |-> "s" swap | "g" identified op | "b" barrier | "x" other,
                                                             id, loc (physical), par]
-     pinit, pfinal  the recorded initial / final mapping (after ApplyPlacement), placement (before ApplyPlacement)
+     pinit, pfinal  the recorded initial / final mapping (after ApplyPlacement), placement (before ApplyPlacement),
+     pw             the width of the circuit the placement was for (nlog in a one-stage workflow; the width of the
+                    previous machine when an already placed circuit is placed again)
      raised         "" or the exception text when the workflow raised on an input it does not document as refused *)
 EXTENDS Naturals, Integers, Sequences, FiniteSets, TLC, Json, IOUtils
 
@@ -53,7 +55,7 @@ InRange(f) == \A i \in 1..Len(f) : f[i] \in 0..C.nphys - 1
 \* what can be said before looking at the circuit
 StaticVerdict ==
   IF C.raised # "" THEN "workflow-raised"
-  ELSE IF Len(C.pinit) # C.nlog \/ Len(C.pfinal) # C.nlog \/ Len(C.placement) # C.nlog THEN "mapping-wrong-length"
+  ELSE IF Len(C.pinit) # C.nlog \/ Len(C.pfinal) # C.nlog \/ Len(C.placement) # C.pw THEN "mapping-wrong-length"
   ELSE IF ~InRange(C.pinit) \/ ~InRange(C.pfinal) \/ ~InRange(C.placement) THEN "mapping-out-of-range"
   ELSE IF ~Injective(C.pinit) \/ ~Injective(C.pfinal) \/ ~Injective(C.placement) THEN "mapping-not-injective"
   ELSE IF ~Connected(Range(C.placement)) THEN "placement-disconnected"
